@@ -142,6 +142,7 @@ def setup(repo):
     for f, tests, pkg in [("companions/chunker_companion.rs", ["c09_large_window_agreement"], "bitar"),
                           ("companions/archive_companion.rs", ["c07_range_requests"], "bitar"),
                           ("companions/reader_companion.rs", ["c08_local_reader"], "bitar"),
+                          ("companions/clone_companion.rs", ["c05_crash_and_rerun"], "bitar"),
                           ("companions/cli_companion.rs", ["c04_cli_clone"], "bita")]:
         r = run_companion(repo, f, tests, timeout=1800, package=pkg)
         print("native companion setup %s: %s (%d cases, %.0fs)" % (f, r["status"], r["cases"], r["wall_s"]))
